@@ -4,6 +4,7 @@ import (
 	"crypto/md5"
 	"encoding/hex"
 	"io"
+	"sort"
 	"sync"
 
 	"github.com/johannesboyne/gofakes3"
@@ -70,6 +71,9 @@ func (db *Backend) ListBuckets() ([]gofakes3.BucketInfo, error) {
 			CreationDate: bucket.creationDate,
 		})
 	}
+	// by name, like S3 and the other backends (not in map order, which differs
+	// from call to call):
+	sort.Slice(buckets, func(i, j int) bool { return buckets[i].Name < buckets[j].Name })
 
 	return buckets, nil
 }
